@@ -231,4 +231,47 @@ def kwayMerge : Nat → List (List Key) → List Key
     | [] => []
     | h :: hs => minKey h hs :: kwayMerge fuel (popHead (minKey h hs) ls)
 
+/-! ### the write stream: requests and responses are matched by position -/
+
+inductive WTok
+  | send (id : Nat)          -- a request is sent, its caller waits
+  | sendTimeout (id : Nat)   -- a request is sent, its caller gives up before the answer
+  | resp                     -- the leader answers its oldest unanswered request
+  | brk                      -- the stream breaks
+  deriving Repr
+
+inductive WOut
+  | resp (r : Nat)   -- the response to request `r`
+  | timeout
+  | eof
+  deriving Repr, DecidableEq
+
+structure WSt where
+  pending : List (Nat × Bool) := []   -- the wrapper's queue: request id, "its caller still waits"
+  leader : List Nat := []             -- requests the leader has not answered yet
+  got : List (Nat × WOut) := []
+  broken : Bool := false
+
+/-- `keepsTimedOut` = fact: a request whose caller has given up keeps its place in the queue (and absorbs
+    the late response) -/
+def wstep (keepsTimedOut : Bool) (s : WSt) : WTok → WSt
+  | .send id =>
+    if s.broken then { s with got := s.got ++ [(id, .eof)] }
+    else { s with pending := s.pending ++ [(id, true)], leader := s.leader ++ [id] }
+  | .sendTimeout id =>
+    if s.broken then { s with got := s.got ++ [(id, .eof)] }
+    else if keepsTimedOut then
+      { s with pending := s.pending ++ [(id, false)], leader := s.leader ++ [id], got := s.got ++ [(id, .timeout)] }
+    else { s with leader := s.leader ++ [id], got := s.got ++ [(id, .timeout)] }
+  | .resp =>
+    match s.leader, s.pending with
+    | r :: ls, (id, waiting) :: ps =>
+      { s with leader := ls, pending := ps, got := if waiting then s.got ++ [(id, .resp r)] else s.got }
+    | _ :: ls, [] => { s with leader := ls }
+    | [], _ => s
+  | .brk =>
+    { s with broken := true, pending := [], got := s.got ++ (s.pending.filter (·.2)).map fun p => (p.1, WOut.eof) }
+
+def wrun (keepsTimedOut : Bool) (toks : List WTok) : WSt := toks.foldl (wstep keepsTimedOut) {}
+
 end Oxia.Batch
